@@ -709,7 +709,7 @@ def _on_instruction(code, offset):
     cur = k.current
     if cur.is_root or k.preempt != "opcode":
         return None
-    k.yield_point(None)
+    k.yield_point(None, sync=False)
     return None
 
 
